@@ -374,7 +374,9 @@ func TestVerifC12Twin(t *testing.T) {
 			}
 			c := *p.conf.Custom
 			c.Rules = rules
-			c.UpdateTime = c.UpdateTime.Add(time.Duration(p.custom) * time.Second)
+			// (the backend stamps an update with the time it was received: two of them may be a second or a nanosecond apart)
+			c.UpdateTime = c.UpdateTime.Add([]time.Duration{1, time.Microsecond, time.Millisecond, 300 * time.Millisecond, time.Second,
+				time.Hour}[rng.Intn(6)])
 			nc := *p.conf
 			nc.Custom = &c
 			p.conf = &nc
